@@ -1369,6 +1369,9 @@ def run(rep, tier):
              "to a name N and 2-5 classes using N alone / under another field name / with a default / as an operand of |, "
              "Optional, Union, list, Array, AnyOf, OneOf, Tuple, Map (lattice: every alias form x every use between two "
              "plain uses; plus random), each class observed after every step and compared with the written-out module; "
+             "factory modules = def make(T): class S: a: T; b: <use of T>, called 2-4 times with different bindings "
+             "(lattice: 4 binding sequences x 11 uses; plus random); function fields = `def Fn() -> Field` / `-> \"Field\"` "
+             "as annotation, attribute and argument of Cls[...] (random + lattice of 7 fields x 10-12 positions); "
              "distinct = distinct spelling "
              "signatures" % max_depth)
 
